@@ -147,6 +147,9 @@ set_option maxRecDepth 1000000
 -- @theorem C07_unchecked_constructors_only_for_owned_inputs : (table theorem, regenerated from the source on every run) the constructors that skip the duplicate test (new, new_ref, From, FromIterator, Default, Extend …) require OwnedLockable inputs or are unsafe, and OwnedLockable is implemented only for types that own their locks (no shared reference, containers and wrappers only over OwnedLockable elements): a lock cannot be given twice to an unchecked constructor in safe code
 theorem C07_unchecked_constructors_only_for_owned_inputs :
     c15_uncheckedConstructors = [] ∧ c15_ownedLockable = [] := by decide +kernel
+
+-- @theorem C07_no_duplicate_can_be_added_after_the_test : (table theorem) the checked collections give safe mutable access to their underlying container only for element types that own their locks, so the result of try_new's duplicate test cannot be invalidated afterwards from safe code
+theorem C07_no_duplicate_can_be_added_after_the_test : c15_mutableAccessToChecked = [] := by decide +kernel
 end
 
 end HLV
